@@ -102,7 +102,7 @@ def write_conf(d, aperture_dependent=False, logd_step=0.02, version=1):
             f.write('version = %d\n' % version)
 
 
-def build_indep_package(d, names, grid, filt_names, wavs, version=1):
+def build_indep_package(d, names, grid, filt_names, wavs, version=1, zero_cells=()):
     """package that is not aperture dependent: convolved/<f>.fits written with the
     library's own writer.  grid[m][j] = quarter-dex log10 flux (mJy).  version=2: a cube-format
     package (models.conf version 2 + flux.fits holding the same model names; the fitter reads the
@@ -119,7 +119,7 @@ def build_indep_package(d, names, grid, filt_names, wavs, version=1):
         c.central_wavelength = wavs[j] * u.micron
         c.model_names = np.array(names, dtype='U30')
         c.apertures = None
-        c.flux = np.array([[10.0 ** (grid[m][j] / 4.0)] for m in range(len(names))]) * u.mJy
+        c.flux = np.array([[0.0 if (m, j) in zero_cells else 10.0 ** (grid[m][j] / 4.0)] for m in range(len(names))]) * u.mJy
         c.error = np.zeros((len(names), 1)) * u.mJy
         c.write(os.path.join(d, 'convolved', fn + '.fits'))
 
